@@ -1419,6 +1419,45 @@ func traceDeltas(f *ssa.Function, s *symb) (map[int64]string, string) {
 }
 
 // caseConstOf: blk is reached only through the true edge of `load(blocks[i].step) == L`.
+// cellFieldRead: v reads field k of the element base[idx] — through the field's address, or as a field of the
+// element loaded whole (cur := blocks[i]; cur.step).
+func cellFieldRead(v ssa.Value) (base, idx ssa.Value, field int, ok bool) {
+	switch x := v.(type) {
+	case *ssa.UnOp:
+		if x.Op != token.MUL {
+			return nil, nil, 0, false
+		}
+		fa, ok := x.X.(*ssa.FieldAddr)
+		if !ok {
+			return nil, nil, 0, false
+		}
+		ia, ok := fa.X.(*ssa.IndexAddr)
+		if !ok {
+			// a local copy of the element kept in a variable: cur := blocks[i]
+			if al, isAl := fa.X.(*ssa.Alloc); isAl {
+				if ld, isLd := cellValue(al).(*ssa.UnOp); isLd && ld.Op == token.MUL {
+					if ia2, ok2 := ld.X.(*ssa.IndexAddr); ok2 {
+						return ia2.X, ia2.Index, fa.Field, true
+					}
+				}
+			}
+			return nil, nil, 0, false
+		}
+		return ia.X, ia.Index, fa.Field, true
+	case *ssa.Field:
+		ld, ok := x.X.(*ssa.UnOp)
+		if !ok || ld.Op != token.MUL {
+			return nil, nil, 0, false
+		}
+		ia, ok := ld.X.(*ssa.IndexAddr)
+		if !ok {
+			return nil, nil, 0, false
+		}
+		return ia.X, ia.Index, x.Field, true
+	}
+	return nil, nil, 0, false
+}
+
 func caseConstOf(blk *ssa.BasicBlock, f *ssa.Function, iphi *ssa.Phi) (int64, bool) {
 	if len(blk.Preds) != 1 {
 		return 0, false
@@ -1437,16 +1476,8 @@ func caseConstOf(blk *ssa.BasicBlock, f *ssa.Function, iphi *ssa.Phi) (int64, bo
 		if !ok {
 			continue
 		}
-		ld, ok := pair[0].(*ssa.UnOp)
-		if !ok || ld.Op != token.MUL {
-			continue
-		}
-		fa, ok := ld.X.(*ssa.FieldAddr)
-		if !ok || fa.Field != 1 {
-			continue
-		}
-		ia, ok := fa.X.(*ssa.IndexAddr)
-		if !ok || ia.X != f.Params[0] || ia.Index != iphi {
+		base, idx, field, ok := cellFieldRead(pair[0])
+		if !ok || field != 1 || base != ssa.Value(f.Params[0]) || idx != ssa.Value(iphi) {
 			continue
 		}
 		return k, true
@@ -1687,7 +1718,7 @@ func rulesTraceStop(c *Ctx, r *Report) {
 		} else if cell != nil {
 			// the loop whose header compares the index with 0
 			for _, b := range f.Blocks {
-				if iff, ok := lastInstr(b).(*ssa.If); ok && len(naturalLoop(b)) > 1 {
+				if iff, ok := lastInstr(b).(*ssa.If); ok && isLoopHeader(b) {
 					if bo, ok := iff.Cond.(*ssa.BinOp); ok && (isIdx(bo.X) || isIdx(bo.Y)) {
 						header = b
 					}
@@ -1704,16 +1735,8 @@ func rulesTraceStop(c *Ctx, r *Report) {
 			return ok && k.Value != nil && isZeroConst(k)
 		}
 		isScoreAtI := func(v ssa.Value) bool {
-			ld, ok := v.(*ssa.UnOp)
-			if !ok || ld.Op != token.MUL {
-				return false
-			}
-			fa, ok := ld.X.(*ssa.FieldAddr)
-			if !ok || fa.Field != 0 {
-				return false
-			}
-			ia, ok := fa.X.(*ssa.IndexAddr)
-			return ok && ia.X == ssa.Value(f.Params[0]) && isIdx(ia.Index)
+			base, idx, field, ok := cellFieldRead(v)
+			return ok && field == 0 && base == ssa.Value(f.Params[0]) && isIdx(idx)
 		}
 		nIndex, nScore := 0, 0
 		var other []string
